@@ -10,7 +10,7 @@ span is closed, every plugin is shut down, start and shutdown return normally.
 from hypothesis import strategies as st
 
 from vf import lab, plugsynth
-from vf.core import Prop, Outcome
+from vf.core import Prop, Outcome, fd
 
 from deep.api.deep import Deep
 from deep.config import ConfigService
@@ -57,6 +57,8 @@ class Scenario:
         for i, p in enumerate(recipe['plugins']):
             if p['state'] == 'inactive':
                 custom['PLUGIN_P%d' % i] = 'False'
+            if p['state'] == 'inactive_bool':
+                custom['PLUGIN_P%d' % i] = False        # switched off with the boolean instead of the string
         self.sent = []
 
         def responder(method, raw):
@@ -136,13 +138,14 @@ class C20(Prop):
     floors = {'fault_fired': 0.5, 'two_active': 0.4, 'skipped_plugin': 0.15}
 
     def strategy(self, tier):
-        plugin = st.fixed_dictionaries({
+        plugin = fd({
             'roles': st.lists(st.sampled_from(ROLES), min_size=1, max_size=3, unique=True),
             'order': st.sampled_from([0, 0, 1, 2, -2, 3, None]),
             'state': st.sampled_from(['ok', 'ok', 'ok', 'ok', 'ok', 'ok', 'ok', 'missing_module', 'ok',
-                                      'missing_class', 'ok', 'ctor_raises', 'ok', 'inactive']),
+                                      'missing_class', 'ok', 'ctor_raises', 'ok', 'inactive', 'inactive_bool',
+                                      'is_active_raises']),
         })
-        return st.fixed_dictionaries({
+        return fd({
             'plugins': st.one_of(st.lists(plugin, min_size=0, max_size=4), st.lists(plugin, min_size=2, max_size=4)),
             'python_plugin_off': st.booleans(),
             'placements': st.lists(st.integers(0, 200), min_size=1, max_size=6 if tier == 'quick' else 1),
